@@ -448,7 +448,7 @@ func cmdCheck(args []string) int {
 		fmt.Fprintln(os.Stderr, "govc: engine error:", err)
 		return 2
 	}
-	timeout := 12000
+	timeout := 15000
 	if *tier == "thorough" {
 		timeout = 60000
 	}
